@@ -37,9 +37,27 @@ SIG = {
                            'Option Bytes'),
     'sequence_for_script': ('transactions.py', 'Sequence.for_script',
                             [('self_seq_type', 'Int'), ('self_value', 'Int'), ('self_is_type_block', 'Bool')], 'Int'),
+    'rmd_fi': ('ripemd160.py', 'fi', [('x', 'Int'), ('y', 'Int'), ('z', 'Int'), ('i', 'Int')], 'Int'),
+    'rmd_rol': ('ripemd160.py', 'rol', [('x', 'Int'), ('i', 'Int')], 'Int'),
+    'get_transaction_length': ('utils.py', 'get_transaction_length', [('data', 'Bytes')], 'Int'),
+    'bech32_polymod': ('bech32.py', 'bech32_polymod', [('values', 'List Int')], 'Int'),
+    'bech32_hrp_expand': ('bech32.py', 'bech32_hrp_expand', [('hrp', 'List Char')], 'List Int'),
+    'bech32_verify_checksum': ('bech32.py', 'bech32_verify_checksum', [('hrp', 'List Char'), ('data', 'List Int')],
+                               'Option Int'),
+    'bech32_create_checksum': ('bech32.py', 'bech32_create_checksum',
+                               [('hrp', 'List Char'), ('data', 'List Int'), ('spec', 'Int')], 'List Int'),
+    'convertbits': ('bech32.py', 'convertbits',
+                    [('data', 'List Int'), ('frombits', 'Int'), ('tobits', 'Int'), ('pad', 'Bool')], 'Option (List Int)'),
 }
+# `while` loops are translated with an explicit iteration bound (a Lean term over the variables in scope at loop
+# entry); running out of it raises PyErr.fellThrough, which no Python exception maps to - so a bound that is too
+# small shows up as a disagreement with the implementation and as an unprovable equivalence, never silently.
+WHILE_FUEL = {'convertbits': '(Int.toNat bits + 1)'}
+# return types of translated callees that are lists (for `+` -> `++`)
+LIST_RET = {'bech32_hrp_expand', 'bech32_create_checksum'}
 CALLS = {'encode_varint': 'encode_varint', 'prepend_compact_size': 'prepend_compact_size',
-         '_op_push_data': 'op_push_data'}
+         '_op_push_data': 'op_push_data', 'parse_compact_size': 'parse_compact_size',
+         'bech32_polymod': 'bech32_polymod', 'bech32_hrp_expand': 'bech32_hrp_expand'}
 IDENT = {'h_to_b', 'b_to_h'}  # hex strings that denote data are modelled as the bytes they denote
 CONSTS = {}                   # filled from the evaluated constants module
 
@@ -78,13 +96,39 @@ class Tr:
             if n.value is None: return 'none'
             s.fail(n, 'constant')
         if isinstance(n, ast.Name):
-            if n.id in CONSTS: return CONSTS[n.id]
+            if n.id in CONSTS and n.id not in s.declared: return CONSTS[n.id]
             if n.id == 'self': s.fail(n, 'bare self')
             return n.id
         if isinstance(n, ast.Attribute) and isinstance(n.value, ast.Name) and n.value.id == 'self':
             return 'self_' + n.attr
+        if isinstance(n, ast.Attribute) and isinstance(n.value, ast.Name) and f'{n.value.id}.{n.attr}' in CONSTS:
+            return CONSTS[f'{n.value.id}.{n.attr}']
+        if isinstance(n, ast.List):
+            if not n.elts: return '([] : List Int)'
+            return '[' + ', '.join(s.e(x) for x in n.elts) + ']'
+        if isinstance(n, ast.ListComp):
+            if len(n.generators) != 1 or n.generators[0].ifs or not isinstance(n.generators[0].target, ast.Name):
+                s.fail(n, 'comprehension')
+            g = n.generators[0]; v = g.target.id
+            it = s.iter(g.iter)
+            saved = s.pre; s.pre = []
+            body = s.e(n.elt); inner = s.pre; s.pre = saved
+            lam = f'(fun ({v} : _) => do ' + ''.join(p + '; ' for p in inner) + f'pure {body})'
+            return s.eff(f'List.mapM {lam} {it}')
+        if isinstance(n, ast.IfExp):
+            c = s.cond(n.test)
+            saved = s.pre
+            s.pre = []; a = s.e(n.body); pa = s.pre
+            s.pre = []; b = s.e(n.orelse); pb = s.pre
+            s.pre = saved
+            if not pa and not pb: return f'(if {c} then {a} else {b})'
+            da = '(do ' + ''.join(p + '; ' for p in pa) + f'pure {a})'
+            db = '(do ' + ''.join(p + '; ' for p in pb) + f'pure {b})'
+            return s.eff(f'(if {c} then {da} else {db})')
         if isinstance(n, ast.UnaryOp) and isinstance(n.op, ast.USub):
             return f'(- {s.e(n.operand)})'
+        if isinstance(n, ast.UnaryOp) and isinstance(n.op, ast.Invert):
+            return f'(Py.lnot {s.e(n.operand)})'
         if isinstance(n, ast.BinOp):
             a, b = s.e(n.left), s.e(n.right)
             op = {ast.Add: '+', ast.Sub: '-', ast.Mult: '*', ast.FloorDiv: '/', ast.Mod: '%'}.get(type(n.op))
@@ -94,6 +138,7 @@ class Tr:
             if isinstance(n.op, ast.RShift): return s.eff(f'Py.shr {a} {b}')
             if isinstance(n.op, ast.BitAnd): return f'(Py.land {a} {b})'
             if isinstance(n.op, ast.BitOr): return f'(Py.lor {a} {b})'
+            if isinstance(n.op, ast.BitXor): return f'(Py.lxor {a} {b})'
             s.fail(n, 'binop')
         if isinstance(n, ast.Compare) and len(n.ops) == 1:
             a, b = s.e(n.left), s.e(n.comparators[0])
@@ -103,8 +148,23 @@ class Tr:
             if op: return f'(decide ({a} {op} {b}))'
             s.fail(n, 'compare')
         if isinstance(n, ast.BoolOp):
-            j = ' && ' if isinstance(n.op, ast.And) else ' || '
-            return '(' + j.join(s.cond(v) for v in n.values) + ')'
+            # Python evaluates operands left to right and stops early: an operand with effects (something that can
+            # raise) is only evaluated when the operands before it did not decide the result
+            isand = isinstance(n.op, ast.And)
+            j = ' && ' if isand else ' || '
+            acc = None
+            for v in n.values:
+                saved = s.pre; s.pre = []
+                c = s.cond(v); pv = s.pre; s.pre = saved
+                if acc is None:
+                    s.pre += pv; acc = c
+                elif not pv:
+                    acc = f'({acc}{j}{c})'
+                else:
+                    rhs = '(do ' + ''.join(p + '; ' for p in pv) + f'pure {c})'
+                    acc = s.eff(f'(if {acc} then {rhs} else pure false)' if isand
+                                else f'(if {acc} then pure true else {rhs})')
+            return acc if acc.startswith('(') or acc.startswith('t') else f'({acc})'
         if isinstance(n, ast.UnaryOp) and isinstance(n.op, ast.Not): return f'(!{s.cond(n.operand)})'
         if isinstance(n, ast.Subscript):
             v = s.e(n.value)
@@ -120,20 +180,58 @@ class Tr:
                 return f'(Py.slice {v} {lo} {hi})'
             if isinstance(n.value, ast.Call) and isinstance(n.slice, ast.Constant) and n.slice.value == 0:
                 return v     # struct.unpack(...)[0]
+            if isinstance(n.value, ast.Name) and n.value.id in s.intlists:
+                return s.eff(f'Py.indexL {v} {s.e(n.slice)}')
             return s.eff(f'Py.index {v} {s.e(n.slice)}')
         if isinstance(n, ast.Tuple): return '(' + ', '.join(s.e(x) for x in n.elts) + ')'
         if isinstance(n, ast.Call): return s.call(n)
         s.fail(n, 'expr')
 
+    def iter(s, n):
+        """the iterable of a for loop / comprehension as a Lean list"""
+        if isinstance(n, ast.Call) and isinstance(n.func, ast.Name) and n.func.id == 'range' and len(n.args) == 1:
+            return f'(Py.range {s.e(n.args[0])})'
+        if isinstance(n, ast.Name) and (n.id in s.intlists or n.id in s.bytesvars or n.id in s.charlists):
+            if n.id in s.bytesvars: s.fail(n, 'iteration over bytes')
+            return n.id
+        s.fail(n, 'iterable')
+
+    def isbool(s, n):
+        return (isinstance(n, (ast.Compare, ast.BoolOp)) or (isinstance(n, ast.UnaryOp) and isinstance(n.op, ast.Not))
+                or (isinstance(n, ast.Constant) and isinstance(n.value, bool)))
+
+    def kind(s, n):
+        """'bytes' | 'ints' | 'chars' | None for the value of an expression"""
+        if isinstance(n, ast.Constant): return 'bytes' if isinstance(n.value, bytes) else None
+        if isinstance(n, (ast.List, ast.ListComp)): return 'ints'
+        if isinstance(n, ast.Name):
+            if n.id in s.intlists: return 'ints'
+            if n.id in s.charlists: return 'chars'
+            if n.id in s.bytesvars: return 'bytes'
+            if n.id not in s.declared and CONSTS.get(n.id, '').startswith('['): return 'bytes'
+            return None
+        if isinstance(n, ast.BinOp) and isinstance(n.op, ast.Add): return s.kind(n.left) or s.kind(n.right)
+        if isinstance(n, ast.Call):
+            f = n.func
+            nm = f.attr if isinstance(f, ast.Attribute) else getattr(f, 'id', '')
+            if nm in LIST_RET: return 'ints'
+            return 'bytes' if s.isbytes(n) else None
+        if isinstance(n, ast.Subscript) and isinstance(n.slice, ast.Slice): return s.kind(n.value)
+        return None
+
     def isbytes(s, n):
+        """is the value a sequence (bytes or list), i.e. does `+` mean concatenation"""
         if isinstance(n, ast.Constant): return isinstance(n.value, bytes)
-        if isinstance(n, ast.Name): return n.id in s.bytesvars or CONSTS.get(n.id, '').startswith('[')
+        if isinstance(n, (ast.List, ast.ListComp)): return True
+        if isinstance(n, ast.Name):
+            return (n.id in s.bytesvars or n.id in s.intlists or n.id in s.charlists
+                    or (n.id not in s.declared and CONSTS.get(n.id, '').startswith('[')))
         if isinstance(n, ast.BinOp) and isinstance(n.op, ast.Add): return s.isbytes(n.left) or s.isbytes(n.right)
         if isinstance(n, ast.Call):
             f = n.func
             nm = f.attr if isinstance(f, ast.Attribute) else getattr(f, 'id', '')
             return nm in ('to_bytes', 'pack', 'bytes', 'encode_varint', 'h_to_b', 'b_to_h', '_op_push_data',
-                          'prepend_compact_size')
+                          'prepend_compact_size') or nm in LIST_RET
         if isinstance(n, ast.Subscript): return isinstance(n.slice, ast.Slice) and s.isbytes(n.value)
         return False
 
@@ -152,7 +250,10 @@ class Tr:
         f = n.func; args = [*n.args]; kw = {k.arg: k.value for k in n.keywords}
         if isinstance(f, ast.Name):
             if f.id in IDENT: return s.e(args[0])
-            if f.id == 'len': return f'(Py.len {s.e(args[0])})'
+            if f.id == 'len':
+                if s.kind(args[0]) in ('ints', 'chars'): return f'((List.length {s.e(args[0])} : Nat) : Int)'
+                return f'(Py.len {s.e(args[0])})'
+            if f.id == 'ord' and len(args) == 1: return f'(Py.ord {s.e(args[0])})'
             if f.id == 'int' and len(args) == 1: return s.e(args[0])
             if f.id == 'bytes' and isinstance(args[0], ast.List):
                 return s.eff('Py.bytesOfInts [' + ', '.join(s.e(x) for x in args[0].elts) + ']')
@@ -204,15 +305,51 @@ class Tr:
                     s.selfalias.add(tg.attr)
                     return []
                 s.fail(st, 'attribute assignment')
+            if isinstance(tg, ast.Tuple) and all(isinstance(x, ast.Name) for x in tg.elts):
+                # all targets were declared up front by hoist()
+                v = s.e(st.value)
+                return s.flush(ind) + [f'{ind}({", ".join(x.id for x in tg.elts)}) := {v}']
             if not isinstance(tg, ast.Name): s.fail(st, 'assignment target')
+            k = s.kind(st.value)
             v = s.e(st.value); name = tg.id
-            if s.isbytes(st.value): s.bytesvars.add(name)
+            if k == 'bytes': s.bytesvars.add(name)
+            if k == 'ints': s.intlists.add(name)
+            if s.isbool(st.value): s.boolvars.add(name)
             kw = '' if name in s.declared else 'let mut '
             s.declared.add(name)
             return s.flush(ind) + [f'{ind}{kw}{name} := {v}']
         if isinstance(st, ast.AugAssign) and isinstance(st.target, ast.Name):
             v = s.e(ast.BinOp(left=st.target, op=st.op, right=st.value))
             return s.flush(ind) + [f'{ind}{st.target.id} := {v}']
+        if (isinstance(st, ast.Expr) and isinstance(st.value, ast.Call) and isinstance(st.value.func, ast.Attribute)
+                and st.value.func.attr == 'append' and isinstance(st.value.func.value, ast.Name)
+                and st.value.func.value.id in s.intlists and len(st.value.args) == 1):
+            nm = st.value.func.value.id
+            v = s.e(st.value.args[0])
+            return s.flush(ind) + [f'{ind}{nm} := {nm} ++ [{v}]']
+        if isinstance(st, ast.For) and not st.orelse and isinstance(st.target, ast.Name):
+            v = st.target.id
+            s.declared.add(v)
+            r = st.iter
+            if isinstance(r, ast.Call) and isinstance(r.func, ast.Name) and r.func.id == 'range' and len(r.args) == 1:
+                # a lazy counting loop (the bound may be an attacker-chosen 64-bit count: never materialised)
+                hi = s.e(r.args[0]); pre = s.flush(ind)
+                used = any(isinstance(x, ast.Name) and x.id == v for b in st.body for x in ast.walk(b))
+                head = [f'{ind}for {v}_ in [0:(Int.toNat {hi})] do']
+                if used: head.append(f'{ind}  let {v} : Int := Int.ofNat {v}_')
+                return pre + head + s.block(st.body, ind + '  ')
+            it = s.iter(st.iter); pre = s.flush(ind)
+            return pre + [f'{ind}for {v} in {it} do'] + s.block(st.body, ind + '  ')
+        if isinstance(st, ast.While) and not st.orelse:
+            if s.name not in WHILE_FUEL: s.fail(st, 'while loop without a registered iteration bound')
+            # the condition is evaluated inside the loop (it may have effects) before every iteration
+            s.tmp += 1; bound = f'bound{s.tmp}'
+            out = [f'{ind}let {bound} : Nat := {WHILE_FUEL[s.name]}', f'{ind}for fuel_ in [0:{bound} + 1] do']
+            c = s.cond(st.test)
+            out += s.flush(ind + '  ')
+            out += [f'{ind}  if !{c} then break', f'{ind}  if fuel_ == {bound} then throw PyErr.fellThrough']
+            out += s.block(st.body, ind + '  ')
+            return out
         if isinstance(st, ast.If):
             c = s.cond(st.test); pre = s.flush(ind)
             out = pre + [f'{ind}if {c} then'] + s.block(st.body, ind + '  ')
@@ -236,14 +373,24 @@ class Tr:
             if isinstance(st, ast.Assign) and len(st.targets) == 1 and isinstance(st.targets[0], ast.Name):
                 nm = st.targets[0].id
                 if nm not in top and nm not in s.declared:
-                    isb = s.isbytes(st.value)
-                    out.append(f'  let mut {nm} := ' + ('([] : Bytes)' if isb else '(0 : Int)'))
+                    k = s.kind(st.value)
+                    if s.isbool(st.value): k = 'bool'; s.boolvars.add(nm)
+                    out.append(f'  let mut {nm} := ' + {'bytes': '([] : Bytes)', 'ints': '([] : List Int)',
+                                                        'bool': 'false'}.get(k, '(0 : Int)'))
                     s.declared.add(nm)
-                    if isb: s.bytesvars.add(nm)
+                    if k == 'bytes': s.bytesvars.add(nm)
+                    if k == 'ints': s.intlists.add(nm)
+            if isinstance(st, ast.Assign) and len(st.targets) == 1 and isinstance(st.targets[0], ast.Tuple):
+                for x in st.targets[0].elts:
+                    if isinstance(x, ast.Name) and x.id not in s.declared:
+                        # tuple targets: integers (the callees in the whitelist return tuples of ints)
+                        out.append(f'  let mut {x.id} := (0 : Int)')
+                        s.declared.add(x.id)
         return out
 
     def fn(s, node, params, ret):
         s.ret = ret; s.bytesvars = {p for p, t in params if t == 'Bytes'}; s.boolvars = {p for p, t in params if t == 'Bool'}
+        s.intlists = {p for p, t in params if t == 'List Int'}; s.charlists = {p for p, t in params if t == 'List Char'}
         s.declared = {p for p, _ in params}; s.selfalias = set()
         # in __init__ the parameters are named without self_; `self.x` then refers to the same value
         ps = ' '.join(f'({p} : {t})' for p, t in params)
@@ -337,7 +484,7 @@ def gen_tables(mods):
 
 def gen_codec():
     trees = {}
-    L = ['/- GENERATED by gen/py2lean.py from /repo on every run — do not edit. -/', 'import BU.Py', 'open Py', '',
+    L = ['/- GENERATED by gen/py2lean.py from /repo on every run — do not edit. -/', 'import BU.Py', 'import BU.PyList', 'open Py', '',
          'namespace Gen', '']
     fps = {}
     for name, (file, qual, params, ret) in SIG.items():
@@ -372,6 +519,10 @@ def main():
             CONSTS[k] = f'({getattr(consts, k)} : Int)'
         for k in ('ABSOLUTE_TIMELOCK_SEQUENCE', 'REPLACE_BY_FEE_SEQUENCE'):
             CONSTS[k] = blit(getattr(consts, k))
+        b32 = mods['bech32']
+        CONSTS['BECH32M_CONST'] = f'({b32.BECH32M_CONST} : Int)'
+        for k in ('BECH32', 'BECH32M'):
+            CONSTS[f'Encoding.{k}'] = f'({getattr(b32.Encoding, k).value} : Int)'
         tables = gen_tables(mods)
         codec, fps = gen_codec()
     except Unsupported as ex:
